@@ -271,6 +271,11 @@ def fn_history(items):
                 eg, ep = ref_compose(mg, mp, np.asarray(X.gs), np.asarray(X.ps))
                 if (np.asarray(C.gs) != eg).any() or (np.asarray(C.ps) % 4 != ep).any():
                     viol.append(V('C04/history/compose-after-inplace-mutation', item, 'compose after %s does not use the mutated map' % label))
+                # to_state after mutation reflects the mutated rows
+                stt = M.to_state()
+                tg, tp = dom.map_to_tableau(mg, mp)
+                if (np.asarray(stt.gs) != tg).any() or (np.asarray(stt.ps) % 4 != tp).any():
+                    viol.append(V('C04/history/to_state-after-inplace-mutation', item, 'to_state after %s does not use the mutated map' % label))
                 if not same(inv1, snap1):
                     viol.append(V('C04/history/earlier-result-changed', item, 'the inverse returned before %s changed afterwards (shared data)' % label))
     return {'n': n, 'nt': nt, 'viol': viol}
